@@ -58,11 +58,27 @@ func (re *Regexp) VerifStateDump(contents bool) string {
 	sort.Strings(rs)
 	sb.WriteString(strings.Join(rs, ";"))
 	if re.replaceCache != nil {
+		// list order (entry keys), and the lookup map: for every map key the position of its element in the
+		// list and that element's own key (they must agree; a stale map entry is hidden state too)
 		sb.WriteString(" lru[")
+		pos := map[any]int{}
+		i := 0
 		for e := re.replaceCache.ll.Front(); e != nil; e = e.Next() {
 			sb.WriteString(e.Value.(*replacerDataCacheEntry).key + ",")
+			pos[e] = i
+			i++
 		}
-		sb.WriteString("]")
+		sb.WriteString("] map{")
+		var ms []string
+		for k, e := range re.replaceCache.cache {
+			p, ok := pos[e]
+			if !ok {
+				p = -1
+			}
+			ms = append(ms, fmt.Sprintf("%s->%d:%s", k, p, e.Value.(*replacerDataCacheEntry).key))
+		}
+		sort.Strings(ms)
+		sb.WriteString(strings.Join(ms, ",") + "}")
 	}
 	return sb.String()
 }
